@@ -32,6 +32,8 @@ def handler(payload):
         14: lambda x, bits: misc.reverse_bits(x, bits),
         15: lambda s: str(BcdVersion3.from_str(s)),
         16: lambda sz, ptag, pv: (pat(ptag, None) if ptag < 3 else BinaryPattern(str(pv))).get_block(sz),
+        17: lambda x, y, z: str(BcdVersion3(x, y, z)),
+        18: lambda s: str(BcdVersion3.to_version(s)),
     }
     out = []
     for case in payload["cases"]:
